@@ -140,6 +140,12 @@ def run_cmds(mods, scn):
                 r = est.set_params(**p)
                 if r is not est:
                     ev["outcome"] = "set_params-did-not-return-self"
+            elif c["cmd"] == "set_params" and len(c["args"]) == 4:
+                k1, v1, k2, v2 = c["args"]
+                kw = {}
+                for k, v in ((k1, v1), (k2, v2)):
+                    kw[k] = uni["PN"][v] if k == "process_noise" else CFG_TOK[k][v] if k in CFG_TOK else python.DEFAULT_MODULES
+                est.set_params(**kw)
             elif c["cmd"] == "set_params":
                 k, v = c["args"]
                 if k == "symbolic_model":
